@@ -17,6 +17,7 @@ import (
 	"strconv"
 	"strings"
 	"sync"
+	"time"
 )
 
 // TB is the subset of testing.TB / *rapid.T the library needs.
@@ -302,4 +303,24 @@ func Die(prop string, c interface{}, f *Failure) {
 	fmt.Printf("VERIF-FAIL property=%s :: %s\nVERIF-CASE %s\nVERIF-END\n", prop, strings.ReplaceAll(f.Msg, "\n", "\n    "), b)
 	Flush()
 	os.Exit(3)
+}
+
+// GuardPatience is how long one generated case may take before Guard gives up
+// on it. Cases take milliseconds; the margin covers a loaded machine.
+const GuardPatience = 45 * time.Second
+
+// Guard arms a watchdog for one generated case and returns the function that
+// disarms it. If the case is still running after GuardPatience the code under
+// test is taken to be in a loop it never leaves (no listed property holds for
+// an operation that does not return); the case is reported, unshrunk, through
+// Die. what() names the operation in progress, if the check tracks it.
+func Guard(prop string, c interface{}, what func() string) func() {
+	t := time.AfterFunc(GuardPatience, func() {
+		w := ""
+		if what != nil {
+			w = " (" + what() + ")"
+		}
+		Die(prop, c, Failf("the case did not finish within %v%s: an operation of the code under test does not return", GuardPatience, w))
+	})
+	return func() { t.Stop() }
 }
